@@ -9,20 +9,6 @@ import Ctap.FilterThm
 /-- the round-trip statement for one type -/
 def RT (t : Ty) : Prop := ∀ v r, wt t v = true → decode t (encode t v ++ r) = .ok (v, r)
 
-theorem encHead_cons (m n : Nat) (hm : m < 8) :
-    ∃ b rest, encHead m n = b :: rest ∧ b.toNat / 32 = m := by
-  unfold encHead
-  simp only []
-  split
-  · exact ⟨_, [], rfl, by simp; omega⟩
-  split
-  · exact ⟨_, _, rfl, by simp; omega⟩
-  split
-  · exact ⟨_, _, rfl, by simp; omega⟩
-  split
-  · exact ⟨_, _, rfl, by simp; omega⟩
-  · exact ⟨_, _, rfl, by simp; omega⟩
-
 theorem maxAi_cases (w : IntW) : (w.maxAi = 24 ∨ w.maxAi = 26 ∨ w.maxAi = 27) ∧ headBound w.maxAi = w.bound := by
   cases w <;> simp [IntW.maxAi, IntW.bound, headBound]
 
